@@ -140,10 +140,18 @@ def minkowskiViolations (R : QM3) : List String :=
 /-- Uncertainty used by the Niggli oracles: `10·EPS + 1e-9·max|G|`. -/
 def niggliTol (G : QM3) : Rat := 10 * EPS + G.maxAbs / ((10 ^ 9 : Nat) : Rat)
 
+/-- Integer-valued with moderate entries: every f64 operation on the metric tensor is exact. -/
+def isExactBasis (B : QM3) : Bool := B.toList.all fun x => x.den = 1 && absR x ≤ 1048576
+
+/-- Niggli clause: the output satisfies the model of moyo's own predicate (`niggli-conditions`) and the
+Niggli conditions proper (`niggli-spec`, see `niggliSpecK`).  For integer-valued outputs the metric is exact
+(`d = 0`, so every tie/special condition is decided exactly); otherwise `d = niggliTol`. -/
 def niggliViolations (R : QM3) : List String :=
   let G := gram R
   if G.det ≤ 0 then ["degenerate"] else
-  if isNiggliK R (niggliTol G) = some false then ["niggli-conditions"] else []
+  let d := if isExactBasis R then 0 else niggliTol G
+  (if isNiggliK R d = some false then ["niggli-conditions"] else []) ++
+  (if niggliSpecK R d = some false then ["niggli-spec"] else [])
 
 /-- Delaunay clause checked here: ordered by length (the selection takes the three shortest in order). -/
 def delaunayViolations (R : QM3) : List String :=
